@@ -85,3 +85,62 @@ func ZZVerifC11GraphScope() {
 	rt.Assert(int(bm.GetCardinality()) == count, "the graph scope holds nothing else")
 	rt.Reach("end")
 }
+
+// ZZGetVectors replaces DB.GetVectors (worker pool over the real index) for the traversal harness: one record
+// per requested id, in order.
+func ZZGetVectors(db *core.DB, indexName string, ids []string) ([]core.VectorData, error) {
+	out := make([]core.VectorData, 0, len(ids))
+	for _, id := range ids {
+		out = append(out, core.VectorData{ID: id})
+	}
+	return out, nil
+}
+
+func zzCheckLevel(nodes []GraphNode, parent int, rest int) {
+	// exactly the out-neighbours of the parent through relation "r", each once
+	seen := [zzN]bool{}
+	for _, g := range nodes {
+		j := zzNodeIdx(g.ID)
+		rt.Assert(j >= 0 && zzAdj[parent][j], "traversal: every returned hop is an existing edge of the requested relation, followed in its direction")
+		if j < 0 {
+			continue
+		}
+		rt.Assert(!seen[j], "traversal: a neighbour is listed once")
+		seen[j] = true
+		if rest > 0 {
+			key := "r"
+			for k := 1; k < rest; k++ {
+				key += ".r"
+			}
+			children := g.Connections[key]
+			zzCheckLevel(children, j, rest-1)
+		} else {
+			rt.Assert(len(g.Connections) == 0, "traversal: nothing beyond the requested path length")
+		}
+	}
+	for j := 0; j < zzCnt; j++ {
+		rt.Assert(seen[j] == zzAdj[parent][j], "traversal: every neighbour through the requested relation is returned")
+	}
+}
+
+// ZZVerifC11Traverse: VTraverse along a path of 1..3 hops of relation "r" over every graph on NODES nodes
+// (cycles and self-loops included): the returned tree holds, level by level, exactly the out-neighbours of each
+// node, nothing beyond the requested path length, and the traversal terminates.
+func ZZVerifC11Traverse() {
+	zzInitGraph()
+	e := &Engine{}
+	root := rt.IntRange("root", 0, zzCnt-1)
+	hops := rt.IntRange("hops", 1, 3)
+	path := "r"
+	for k := 1; k < hops; k++ {
+		path += ".r"
+	}
+	res, err := e.VTraverse("i0", zzNames[root], []string{path})
+	rt.Assert(err == nil && res != nil, "VTraverse succeeds for an existing root")
+	if err != nil || res == nil {
+		return
+	}
+	rt.Assert(res.ID == zzNames[root], "traversal: rooted at the requested node")
+	zzCheckLevel(res.Connections[path], root, hops-1)
+	rt.Reach("end")
+}
